@@ -135,6 +135,7 @@ CHECKS.update({
 
 NA_REASON = "check not built yet in this round (planned, see DESIGN.md §4); not claimed until its harness exists and passes on the unchanged tree"
 
+CHECKS["C05"]["text"] += " fullstack-C05: the controller runs against the real Bridge, real Executor.recv_loop, real worker loop / execute_sequence / runner.run / Memory and real DataServer (one in-process stack, see C01), with one injected failure: a task body (solver-chosen task) raises, calls sys.exit(0) or sys.exit(3); or a worker, a data server or a shm server is marked dead (exit code -9) at a solver-chosen step of the run. Assert: the run ends (bounded number of component steps; timers fire only when nothing else can move) - raising, or returning only values equal to the sequential terms; a failing task body never lets the run return normally; afterwards every executor has terminated, every surviving worker was told to stop, the shm server was shut down and the data server killed."
 CHECKS["C05"]["text"] += " Exit code 0 is an exit: while the executor runs, a child that has exited - whatever the code, e.g. after sys.exit(0) in a task body - must make healthcheck raise; during terminate a clean exit must not."
 
 def main():
